@@ -8,6 +8,19 @@ BASE = "cd /repo && /venv/bin/python -m pytest -ra -q -p no:cacheprovider --time
 
 # id -> dict(level, text, note, technique, design_ref, engine)
 CLAIMS = {
+ "C05": dict(
+  level="model_checking",
+  text="Envelope.tla states the binding clauses (digest = hash under the named algorithm of exactly the named bytes; direct "
+       "digests copied verbatim; size = length; integrated payload = the file; dependency embedded identically to its "
+       "standalone creation; the parent's digest is over the same wrapped manifest the child's own wrapper digests). "
+       "Envelope_MC checks ParentBindsChild over the parent/child member product (a stale child is a counterexample). "
+       "TLC-enumerated parent/child combinations with stale supplied digests and the reference-form x algorithm x size product "
+       "are created by the real tool; every image-digest/size parameter, text-keyed member and dependency is a Ref / Embed / "
+       "ChildBind event judged by TLC.",
+  note="Trusted: TLC, hashlib, own CBOR reader and manifest walker; the dependency created on its own by the real tool is the "
+       "reference for 'embedded identically'. Names made only of hex digits are hex literals by the language's own rule (O2).",
+  technique="TLA+ spec (Envelope.tla, Envelope_MC.tla) + TLC model checking + TLC-generated parent/child combinations replayed into real create + TLC trace validation",
+  design_ref="DESIGN.md 4.4, 5 (C05)", engine="tlc"),
  "C08": dict(
   level="model_checking",
   text="Registry.tla holds the vocabulary as data (15 key spaces, 107 names, three tags) with injectivity ASSUMEs checked by "
